@@ -70,6 +70,24 @@ def amatS (n0 cost0 : K) (M : M22 K) (ne coste : K) : M22 K :=
 def rtot (A : M22 K) : K := A.c / A.a
 def ttot (A : M22 K) : K := Num.ofInt 1 / A.a
 
+/-! ## batch plumbing of `multilayer_stack_rt` (index maps of `reshape` / `moveaxis`; C order) -/
+/-- number of elements of a shape -/
+def bsize : List Nat → Nat
+  | [] => 1
+  | s :: ss => s * bsize ss
+/-- `np.ravel_multi_index(idx, shape)` (row-major) -/
+def ravel : List Nat → List Nat → Nat
+  | _ :: ss, i :: is => i * bsize ss + ravel ss is
+  | _, _ => 0
+/-- `np.unravel_index(b, shape)` (row-major) -/
+def unravel : List Nat → Nat → List Nat
+  | [], _ => []
+  | _ :: ss, b => (b / bsize ss) :: unravel ss (b % bsize ss)
+/-- `np.moveaxis(a.reshape((k, -1)), 1, 0)[b, j]` for `a` of shape `(k, *bs)` -/
+def batchIn {α : Type} (bs : List Nat) (a : Nat → List Nat → α) (b j : Nat) : α := a j (unravel bs b)
+/-- `rflat.reshape(bs)[idx]` -/
+def batchOut {α : Type} (bs : List Nat) (rflat : Nat → α) (idx : List Nat) : α := rflat (ravel bs idx)
+
 /-! ## the executable pipeline on complex doubles (driver only) -/
 namespace Exec
 abbrev C := Cx Float
